@@ -258,8 +258,10 @@ class PoolModel:
                     out.append(((bb, tgt), "is_none()"))
                 elif mode == "is_some" and v == 0:
                     out.append(((bb, tgt), "!is_some()"))
-                elif mode == "discr" and v == 0:
-                    out.append(((bb, tgt), "match None"))
+            if mode == "discr":
+                from .util import discr_edges
+                for e in discr_edges(cfg, bb, 0):
+                    out.append((e, "match None"))
         return out
 
     def row_edges(self, body, site):
